@@ -1397,6 +1397,60 @@ fn durability(rng: &mut Rng, out: &mut Vec<Case>, n: usize) {
     }
 }
 
+/// The canonical consumer loop inside a Sim: submit, `readable().await` in a task, poll the task every tick,
+/// then sync and drain.
+fn await_loops(rng: &mut Rng, out: &mut Vec<Case>, n: usize) {
+    for _ in 0..n {
+        let mut cfg = gen_cfg(rng, 1);
+        let lat = *rng.pick(&[0u64, 500_000, 1_000_000, 2_500_000, 4_000_000]);
+        cfg.lat_min = lat;
+        cfg.lat_max = lat;
+        cfg.cache = false;
+        let mut ops = vec![Op::NewRing(4), Op::CqNew(0)];
+        let mut ud = 1u64;
+        for _round in 0..rng.range(1, 3) {
+            let await_first = rng.chance(1, 2);
+            if await_first {
+                ops.push(Op::Await(0));
+            }
+            for _ in 0..rng.range(1, 3) {
+                let kind = match rng.below(3) {
+                    0 => Kind::Read { fd: 0, off: rng.below(6), len: rng.range(1, 6) as u32 },
+                    1 => Kind::Write { fd: 0, off: rng.below(6), data: vec![rng.below(255) as u8; rng.range(1, 4) as usize] },
+                    _ => Kind::Fsync { fd: 0 },
+                };
+                ops.push(Op::Push { ring: 0, ud, kind, link: false });
+                ud += 1;
+            }
+            ops.push(Op::Submit { ring: 0, mode: 0, want: 0 });
+            if !await_first {
+                ops.push(Op::Await(0));
+            }
+            for _ in 0..rng.range(2, 8) {
+                ops.push(Op::Awaited(0));
+            }
+            ops.push(Op::CqSync(0));
+            for _ in 0..3 {
+                ops.push(Op::Next(0));
+            }
+            if rng.chance(1, 5) {
+                ops.push(Op::Crash);
+                ops.push(Op::FOpen(0));
+                ops.push(Op::NewRing(4));
+                let id = ops.iter().filter(|o| matches!(o, Op::NewRing(_))).count() as u32 - 1;
+                ops.push(Op::CqNew(id));
+                closing(&mut ops, id + 1);
+                out.push(Case { family: "awaitloop", mode: "sim", cfg: cfg.clone(), ops: ops.clone() });
+                break;
+            }
+        }
+        if !matches!(ops.last(), Some(Op::Final)) {
+            closing(&mut ops, 1);
+            out.push(Case { family: "awaitloop", mode: "sim", cfg, ops });
+        }
+    }
+}
+
 pub fn main(args: &Args, out: &mut dyn Write) {
     let mut rng = Rng::new(args.seed);
     let mut cases: Vec<Case> = vec![];
@@ -1481,6 +1535,7 @@ pub fn main(args: &Args, out: &mut dyn Write) {
             let (cfg, ops) = gen_history(&mut rng, &simp);
             cases.push(Case { family: "simhost", mode: "sim", cfg, ops });
         }
+        await_loops(&mut rng, &mut cases, 80 * scale);
         let simp2 = GenParams { sim: true, w_await: 6, nrings: 2, nfiles: 2, w_crash: 6, len: 36, ..fam("simhost") };
         for _ in 0..60 * scale {
             let (cfg, ops) = gen_history(&mut rng, &simp2);
